@@ -93,6 +93,13 @@ def decode_concat(d):
         else:
             n = d.int(2, 5)
             b = [kind, [gen.point(d, gen.small_coord) for _ in range(n)]]
+        if d.chance(1, 6):
+            # a coordinate of the shape that its d() text writes in exponent form: 2.5E-10, 7.25E-20
+            tiny = d.choice([2.5, 7.25, -1.5, 3.0]) * 10.0 ** d.choice([-10, -20, -7, -5, -13])
+            if b[0] in ("polyline", "polygon"):
+                b[1][d.below(len(b[1]))][d.below(2)] = tiny
+            elif b[0] in ("rect", "line"):
+                b[1][d.below(2)] = tiny
     return {"concat": [a, b], "op": d.choice(["add", "iadd"])}
 
 
